@@ -534,6 +534,14 @@ def check_e2e(ctx, case: dict, builds, logs):
     fid = None if only_doc else "F5"
     n = len(case["pairs"])
     ctx.case(["e2e", case["pairs"], case["v1"], case["v2"]], True, {"catalogs": [x[:20] for x in names], "pairs": n})
+    if not only_doc:
+        # a project that constructs a catalog with an undocumented name: the property demands rejection, i.e. every build
+        # fails while collecting (ValueError from the validator when the module is imported) and no task body runs
+        rejected = all(b["crash"] is None and b["exit_code"] == 3 and any(r.get("exc") == "ValueError" for r in b["collection"])
+                       for b in builds) and not any(logs)
+        if rejected:
+            ctx.dist["e2e:undocumented_name_rejected"] += 1
+            return
     for i, b in enumerate(builds):
         if b["crash"] or b["exit_code"] != 0:
             ctx.violation(f"e2e-exit: build {i} of a project whose tasks only pass values through catalog entries ended with "
